@@ -2310,6 +2310,12 @@ class StateEngine(object):
                     use that to dynamically invoke the appropriate choice handler.
                     """
                     try:
+                        if path_match_failed and key != "IsPresent":
+                            # A Variable that selects nothing has no value and
+                            # no type, so it can only satisfy IsPresent: false
+                            # (the False placeholder must not be compared).
+                            continue
+
                         value = choice[key]
                         key = "asl_choice_" + key
                         if key.endswith("Path"):  # Handle variable to variable comparison
